@@ -10,7 +10,9 @@ from core import rng
 from run_suite import canon_vars, has_recursion_error
 
 HARNESS = os.path.dirname(os.path.dirname(os.path.abspath(__file__)))
-HEADER_CELLS = ["a", "b", "n", "c", "first name", " padded ", "x;y", "q|r", "it's", 'say "hi"', '"q"', "tab\there", "back`tick", "ünï"]
+HEADER_CELLS = ["a", "b", "n", "c", "first name", " padded ", "x;y", "q|r", "it's", 'say "hi"', '"q"', "tab\there", "back`tick", "ünï",
+                # a removed character at the edge next to a blank: cleaning is not idempotent on these
+                "price ;", "; qty", "a |", "` b", "x ,", "\t lead"]
 
 
 def gen_job(r):
